@@ -277,7 +277,7 @@ func c18(r *ev.Result, tier string) {
 		)
 	}
 	/* Row-set behaviour. */
-	menu := []string{" alpha first function", " beta second one", " alpha first function", "", " alpha another description"}
+	menu := []string{" alpha first function", " beta second one", " alpha first function", "", " alpha another description", " q Ends in a '", " q Ends in a '\\''"}
 	var seqs func(cur []string)
 	seqs = func(cur []string) {
 		if 0 != len(cur) {
